@@ -210,7 +210,12 @@ class PosInterp:
             if n not in env:
                 if n not in defaults:
                     raise AnalysisError(f'POS-SEM: missing argument {n} calling {fn.qualname}')
-                env[n] = self.expr(defaults[n], {})
+                env[n] = self.default_value(fn, n, defaults[n])
+        for ka, kd in zip(a.kwonlyargs, a.kw_defaults):
+            if ka.arg not in env:
+                if kd is None:
+                    raise AnalysisError(f'POS-SEM: missing keyword argument {ka.arg} calling {fn.qualname}')
+                env[ka.arg] = self.default_value(fn, ka.arg, kd)
         is_gen = any(isinstance(x, (ast.Yield, ast.YieldFrom)) for x in _walk_own(fn.node))
         if is_gen:
             self._yields.append([])
@@ -224,6 +229,15 @@ class PosInterp:
             return _It(self._yields.pop())
         return None
 
+    def default_value(self, fn: FuncInfo, name: str, node: ast.AST) -> Any:
+        """a default is evaluated ONCE, when the function is defined: one object per (function, parameter) for the lifetime of this
+        interpreter -- a mutable default is shared by every call that omits the argument"""
+        cache = self.__dict__.setdefault('_defaults', {})
+        key = (id(fn.node), name)
+        if key not in cache:
+            cache[key] = self.expr(node, {})
+        return cache[key]
+
     def call_value(self, f: Any, args: list, kwargs: dict, node: ast.AST) -> Any:
         if isinstance(f, _PyFn):
             return f.fn(*args)
@@ -233,6 +247,8 @@ class PosInterp:
             except (TypeError, ValueError) as ex:
                 raise Raised(f'{type(ex).__name__}: {ex}')
         if isinstance(f, Bound):
+            if f.fn.kind == 'staticmethod':
+                return self.call_function(f.fn, args, kwargs)        # reached through an instance or the class: no receiver is passed
             return self.call_function(f.fn, [f.recv] + args, kwargs)
         if isinstance(f, FuncInfo):
             return self.call_function(f, args, kwargs)
@@ -654,7 +670,7 @@ class PosInterp:
             return False
         if isinstance(v, (int, Lin)):
             return self.sign_of(v, node) != 0
-        if isinstance(v, (list, tuple, str)):
+        if isinstance(v, (list, tuple, str, range, dict, set, frozenset)):
             return bool(v)
         if isinstance(v, Obj):
             return True
@@ -727,6 +743,25 @@ class PosInterp:
             return None
         if isinstance(e, ast.Constant):
             return e.value
+        if isinstance(e, ast.JoinedStr):
+            # an f-string over concrete texts / integers
+            out_ = ''
+            for part in e.values:
+                if isinstance(part, ast.Constant):
+                    out_ += str(part.value)
+                    continue
+                v_ = self.expr(part.value, env)
+                if not isinstance(v_, (str, int)) or isinstance(v_, bool):
+                    raise self.err(e, 'f-string over an abstract value')
+                spec_ = ''
+                if part.format_spec is not None:
+                    spec_ = self.expr(part.format_spec, env)
+                if part.conversion == ord('r'):
+                    v_ = repr(v_)
+                elif part.conversion == ord('s'):
+                    v_ = str(v_)
+                out_ += format(v_, spec_)
+            return out_
         if isinstance(e, ast.Name):
             if e.id in env:
                 return env[e.id]
@@ -890,6 +925,15 @@ class PosInterp:
             v_ = self.expr(e.value, env)
             env[e.target.id] = v_
             return v_
+        if isinstance(e, ast.Call) and isinstance(e.func, ast.Name) and e.func.id == 'isinstance' and 'isinstance' not in env and len(e.args) == 2 \
+                and isinstance(e.args[1], ast.Attribute) and norm(e.args[1]) in ('datetime.datetime', 'datetime.date', 'decimal.Decimal', 'fractions.Fraction'):
+            # a standard-library class named by module: decided on the concrete value (a datetime IS a date; abstract objects are neither)
+            import datetime as _dt
+            import decimal as _dc
+            import fractions as _fr
+            v_ = self.expr(e.args[0], env)
+            k_ = {'datetime.datetime': _dt.datetime, 'datetime.date': _dt.date, 'decimal.Decimal': _dc.Decimal, 'fractions.Fraction': _fr.Fraction}[norm(e.args[1])]
+            return isinstance(v_, k_)
         if isinstance(e, ast.Call):
             f = self.expr(e.func, env)
             if any(k.arg is None for k in e.keywords):
@@ -949,6 +993,8 @@ class PosInterp:
                     f.lst.extend(list(args[0]))
                 return None
             if isinstance(f, Bound) and isinstance(f.recv, ClassRef):
+                if f.fn.kind == 'staticmethod':
+                    return self.call_function(f.fn, args, kwargs)
                 return self.call_function(f.fn, [f.recv] + args, kwargs)
             return self.call_value(f, args, kwargs, e)
         raise self.err(e, 'expression')
